@@ -29,3 +29,6 @@ EQUIVALENT = [
     ('offset via max method', A, "            channel_offset = np.max(self.model.channel_mapping[ind])", "            channel_offset = self.model.channel_mapping[ind].max()"),
     ('both recurrences changed consistently', A, "            channel_offset = np.max(self.model.channel_mapping[ind])", "            channel_offset = np.max(self.model.channel_mapping[ind]) + 0"),
 ]
+BREAKING.append(('rawInd relative to the lowest raw channel', 'phylib/io/alf.py', "        channel_offset = 0\n", "        channel_offset = np.min(self.model.channel_mapping)\n", ['C14.S1']))
+BREAKING.append(('cluster waveforms: unweighted mean of the templates (model side)', 'phylib/io/model.py', '        mean_waveforms = np.average(waveforms, axis=0, weights=count)', '        mean_waveforms = np.mean(waveforms, axis=0)', ['C14.M1']))
+BREAKING.append(('cluster waveforms: dominant template taken as a position in the compacted table', 'phylib/io/model.py', '        best_template = np.argmax(count)\n        template_ids = np.nonzero(count)[0]\n        count = count[template_ids]', '        template_ids = np.nonzero(count)[0]\n        count = count[template_ids]\n        best_template = np.argmax(count)', ['C14.M1']))
